@@ -18,7 +18,8 @@ from . import c10_std, c10_gen, c16_wf
 
 TRUSTED = [
     "Coq 8.16.1 kernel (coqc, vm_compute); no axioms: every theorem is 'Closed under the global context'",
-    "translator vplib/props/c10_std.py (std.prql through prqlc's own parser via harness `parsefile`; fails closed)",
+    "translator vplib/props/c10_std.py (std.prql through prqlc's own parser via harness `parsefile`; head_cfg: regex pins of lower_expr's ident arm in semantic/lowering.rs and of resolve_ident's module walk in semantic/resolver/names.rs; fails closed)",
+    "hook lowerer-op-trace (120eb8c, `verif:lowerer_op` lines, cfg(prqlc_verif)): read-only; the oracle trusts that every RQ expression the Lowerer builds appears in a `declare` or `push` line with its source span",
     "harness (prqlc::compile, prql_to_pl + pl_to_rq) and the python comparison; vplib/rqcoq.py to read the bound column out of the RQ",
     "modelled, not verified: the resolver -- Model/Scope.v restates Module::lookup, resolve_ident_core, infer_table_column's wildcard rule, "
     "apply_args_to_closure and fold_function; it is validated per program by this check, not proved equal to the Rust code",
